@@ -230,3 +230,78 @@ func uniq(in []string) []string {
 	}
 	return out
 }
+
+// ruleRelocationScope (C01.R4 / C13.R7): relocation by adjust() shifts every absolute pc of an instruction, so it is only sound for a
+// self-contained unit generated at base 0 - the stored body of a `set ... to pattern` definition. Who-may-call rule: every call
+// of SearchInstruction.adjust is made on an element of GenState.globalSubroutines[...].search.
+func ruleRelocationScope(c *Ctx, rule string) {
+	r := c.R
+	n := 0
+	for _, fn := range c.SrcFuncs("bytecode") {
+		k := 0
+		instrsOf(fn, func(in ssa.Instruction) {
+			call, ok := in.(ssa.CallInstruction)
+			if !ok {
+				return
+			}
+			cc := call.Common()
+			isAdjust := false
+			var recv ssa.Value
+			if cc.IsInvoke() && cc.Method.Name() == "adjust" {
+				isAdjust, recv = true, cc.Value
+			} else if sc := cc.StaticCallee(); sc != nil && sc.Name() == "adjust" && sc.Signature.Recv() != nil && c.isRepoFn(sc) {
+				isAdjust, recv = true, cc.Args[0]
+			}
+			if !isAdjust {
+				return
+			}
+			n++
+			k++
+			ob := r.Ob(rule, fmt.Sprintf("%s: relocation #%d is applied to a stored pattern body", fnName(fn), k), c.pos(in.Pos()))
+			src := exprStr(recv)
+			fromStored := false
+			for _, st := range traceAddr(recv).Steps {
+				if n, ok := st.Struct.(*types.Named); ok && st.Kind == "field" && st.Field == "search" && n.Obj().Name() == "GeneratedPattern" {
+					fromStored = true
+				}
+			}
+			if !fromStored {
+				// a helper that relocates a slice it was given: decide at its call sites
+				if prm, ok := traceAddr(recv).Root.(*ssa.Parameter); ok {
+					idx := -1
+					for i, p := range fn.Params {
+						if p == prm {
+							idx = i
+						}
+					}
+					ncalls, okAll := 0, idx >= 0
+					for _, caller := range c.SrcFuncs("bytecode") {
+						for _, cl := range callsTo(caller, fn) {
+							ncalls++
+							stored := false
+							for _, st := range traceAddr(cl.Call.Args[idx]).Steps {
+								if n, ok := st.Struct.(*types.Named); ok && st.Kind == "field" && st.Field == "search" && n.Obj().Name() == "GeneratedPattern" {
+									stored = true
+								}
+							}
+							if !stored {
+								okAll = false
+								src = exprStr(cl.Call.Args[idx]) + " (passed by " + fnName(caller) + ")"
+							}
+						}
+					}
+					if okAll && ncalls > 0 {
+						fromStored = true
+						src += " (a parameter; every caller passes a stored pattern body)"
+					}
+				}
+			}
+			if fromStored {
+				ob.OKnt("adjust() is called on " + src + ", a body generated at base 0 with a fresh variable scope (all of its pcs are internal)")
+			} else {
+				ob.Bad("adjust() is applied to " + src + ", code that was generated in place: it may contain absolute pcs that point outside the relocated range (calls to an earlier subroutine), which relocation shifts as well")
+			}
+		})
+	}
+	r.Floor(rule, "call sites of SearchInstruction.adjust", n, 1)
+}
